@@ -459,3 +459,77 @@ def find_loops(toks, lo, hi):
                 res.append((k, ob))
         k += 1
     return res
+
+
+def desugar_range_inclusive(toks, log):
+    """R20: `for PAT in A..=B { BODY }`  ->
+         { let mut __ri_curN = A; let __ri_endN = B; let mut __ri_doneN = __ri_curN > __ri_endN;
+           while !__ri_doneN { let PAT = __ri_curN;
+               if __ri_curN == __ri_endN { __ri_doneN = true; } else { __ri_curN = __ri_curN + 1; }
+               BODY } }
+    which is exactly how core::ops::RangeInclusive iterates (the installed vstd gives `a..=b` no
+    iteration spec). N is the ordinal of the loop among all loops of the item, so sidecar loop
+    invariants keep their numbering."""
+    toks = list(toks)
+    k = 0
+    ordinal = -1
+    out = []
+    n = len(toks)
+    while k < n:
+        t = toks[k]
+        if t.kind == 'ident' and t.text in ('while', 'loop'):
+            ordinal += 1
+        if t.kind == 'ident' and t.text == 'for':
+            ordinal += 1
+            # find `in`, then `..=` before body '{'
+            j = k + 1
+            depth = 0
+            in_i = None
+            op_i = None
+            ob = None
+            while j < n:
+                u = toks[j]
+                if u.kind == 'punct':
+                    if u.text in '([':
+                        depth += 1
+                    elif u.text in ')]':
+                        depth -= 1
+                    elif u.text == '{' and depth == 0:
+                        ob = j
+                        break
+                    elif u.text == '.' and depth == 0 and op_i is None and j + 2 < n \
+                            and toks[j + 1].kind == 'punct' and toks[j + 1].text == '.' \
+                            and toks[j + 2].kind == 'punct' and toks[j + 2].text == '=':
+                        op_i = j
+                elif u.kind == 'ident' and u.text == 'in' and depth == 0 and in_i is None:
+                    in_i = j
+                j += 1
+            if ob is not None and in_i is not None and op_i is not None and op_i > in_i:
+                pat = text(toks[k + 1:in_i]).strip()
+                a = text(toks[in_i + 1:op_i]).strip()
+                b = text(toks[op_i + 3:ob]).strip()
+                cb = match_close(toks, ob)
+                N = ordinal
+                head = ('{ let mut __ri_cur%d = %s; let __ri_end%d = %s; let mut __ri_done%d = __ri_cur%d > __ri_end%d;\n'
+                        'while !__ri_done%d ' % (N, a, N, b, N, N, N, N))
+                inner = (' let %s = __ri_cur%d; if __ri_cur%d == __ri_end%d { __ri_done%d = true; } else { __ri_cur%d = __ri_cur%d + 1; }'
+                         % (pat, N, N, N, N, N, N))
+                log.append(('R20', 'for %s in %s..=%s desugared to while (loop #%d)' % (pat, a, b, N), t.line))
+                out.append(Tok('subst', head, t.pos, t.line))
+                out.append(toks[ob])
+                out.append(Tok('subst', inner, t.pos, t.line))
+                # body tokens (recursively desugar nested loops is not needed: handled by continuing scan)
+                toks.insert(cb + 1, Tok('subst', ' }', toks[cb].pos, toks[cb].line))
+                n = len(toks)
+                k = ob + 1
+                continue
+            if ob is not None and in_i is not None:
+                # R21: name the ghost iterator so a sidecar invariant can refer to it
+                log.append(('R21', 'for-loop #%d iterator named __it%d' % (ordinal, ordinal), t.line))
+                out.extend(toks[k:in_i + 1])
+                out.append(Tok('subst', ' __it%d:' % ordinal, t.pos, t.line))
+                k = in_i + 1
+                continue
+        out.append(t)
+        k += 1
+    return relex(out)
